@@ -29,6 +29,9 @@ type ctxBranch struct {
 	readsMake bool
 }
 
+// ctxLits collects every literal the marker rules test a file name against: (kind, literal).
+var ctxLits [][2]string
+
 func isIdent(e ast.Expr, name string) bool {
 	id, ok := e.(*ast.Ident)
 	return ok && id.Name == name
@@ -60,6 +63,7 @@ func ctxCond(e ast.Expr) (string, bool) {
 		case token.EQL:
 			if isIdent(t.X, "filename") {
 				if s, ok := strLit(t.Y); ok {
+					ctxLits = append(ctxLits, [2]string{"eq", s})
 					return "(.eq " + leanStr(s) + ")", true
 				}
 			}
@@ -69,8 +73,10 @@ func ctxCond(e ast.Expr) (string, bool) {
 			if s, ok := strLit(t.Args[1]); ok {
 				switch se.Sel.Name {
 				case "HasSuffix":
+					ctxLits = append(ctxLits, [2]string{"suffix", s})
 					return "(.suffix " + leanStr(s) + ")", true
 				case "Contains":
+					ctxLits = append(ctxLits, [2]string{"contains", s})
 					return "(.contains " + leanStr(s) + ")", true
 				}
 			}
@@ -228,6 +234,7 @@ func init() {
 		x.Assert("context:analyzeFile-shape", okAF && len(checks) > 0, "expected analyzeFile to be a sequence of a.check*(filename, [dir,] ctx) calls")
 
 		// every check* function: statements are if-chains or switches on filename
+		ctxLits = nil
 		var rules [][]ctxBranch
 		shapeOK := true
 		var shapeMsg []string
@@ -286,6 +293,7 @@ func init() {
 								fail(cn, "case expression is not a string literal")
 								continue
 							}
+							ctxLits = append(ctxLits, [2]string{"eq", lit})
 							t := "(.eq " + leanStr(lit) + ")"
 							if i == 0 {
 								cond = t
@@ -632,5 +640,6 @@ func init() {
 		x.Fact("context.rules", len(rules))
 		x.Fact("context.branches", nb)
 		x.Fact("context.checks", checks)
+		x.Fact("context.literals", ctxLits)
 	})
 }
